@@ -19,6 +19,7 @@ from ..sym import SymClient, empty_state
 from .c06 import CMD_FLAGS, DATA_FLAGS
 
 U = 'U'  # unknown
+FRAG = ('$FRAG',)   # (part of) the value of the PDV being processed
 
 
 class BoolClient(Client):
@@ -89,8 +90,8 @@ class BoolClient(Client):
         res = []
         for s2, rv in outs:
             # the callee's parameters and locals are gone; flags (self.*) and the caller's locals stay
-            keep = [(n, v) for n, v in s2 if n.startswith('self.') or n.startswith('$no_ds')]
-            caller_locals = [(n, v) for n, v in state if not n.startswith('self.') and not n.startswith('$no_ds')]
+            keep = [(n, v) for n, v in s2 if n.startswith('self.') or (n.startswith('$') and n != '$ret')]
+            caller_locals = [(n, v) for n, v in state if not n.startswith('self.') and not (n.startswith('$') and n != '$ret')]
             res.append((frozenset(keep + caller_locals), rv))
         if o.exc:
             self._pending_exc = getattr(self, '_pending_exc', set()) | {(state, e_) for _s, e_ in o.exc}
@@ -133,9 +134,109 @@ class BoolClient(Client):
             return 'self.' + ch[1]
         return None
 
+    @staticmethod
+    def is_marker_expr(e) -> bool:
+        """does the expression read the message control header -- byte 0 of some ``<x>.data_value``?
+        ``six.indexbytes(dv, 0)``, ``dv[0]``, ``ord(dv[:1])``, ``bytearray(dv)[0]``, ``struct.unpack('B', dv[:1])[0]``"""
+        def dv(x):
+            return isinstance(x, ast.Attribute) and x.attr == 'data_value'
+
+        def first(x):      # dv[:1] / dv[0:1]
+            return isinstance(x, ast.Subscript) and dv(x.value) and isinstance(x.slice, ast.Slice) and x.slice.step is None \
+                and (x.slice.lower is None or (isinstance(x.slice.lower, ast.Constant) and x.slice.lower.value == 0)) \
+                and isinstance(x.slice.upper, ast.Constant) and x.slice.upper.value == 1
+
+        def zero(x):
+            return isinstance(x, ast.Constant) and x.value == 0 and not isinstance(x.value, bool)
+        if isinstance(e, ast.Call):
+            fn = norm(e.func)
+            if fn in ('six.indexbytes', 'indexbytes') and len(e.args) == 2 and dv(e.args[0]) and zero(e.args[1]):
+                return True
+            if fn == 'ord' and len(e.args) == 1 and first(e.args[0]):
+                return True
+        if isinstance(e, ast.Subscript) and zero(e.slice):
+            v = e.value
+            if dv(v):
+                return True
+            if isinstance(v, ast.Call) and norm(v.func) in ('bytearray', 'memoryview', 'list', 'tuple') and len(v.args) == 1 \
+                    and (dv(v.args[0]) or first(v.args[0])):
+                return True
+            if isinstance(v, ast.Call) and norm(v.func).endswith('unpack') and v.args and first(v.args[-1]):
+                fmt = v.args[0].value if len(v.args) == 2 and isinstance(v.args[0], ast.Constant) else None
+                if fmt is None or str(fmt).lstrip('<>!=@') == 'B':
+                    return True
+        return False
+
+    def fold(self, e, state):
+        """('ok', value) | ('raise', exception name) | ('unknown', None): the expression folded over what the state knows
+        (locals / flags with constant values, the marker, module and class constants) -- nothing else is evaluated"""
+        import copy
+        from ..arith import CannotEvaluate, eval_value
+        env = {}
+        me = self
+
+        class T(ast.NodeTransformer):
+            def generic_visit(self_, n):
+                if isinstance(n, ast.expr) and me.is_marker_expr(n):
+                    return ast.Name(id='__marker__', ctx=ast.Load())
+                if isinstance(n, ast.expr) and me.nods_polarity(n) is not None:
+                    return ast.Name(id='__no_ds_%s__' % ('eq' if me.nods_polarity(n) else 'ne'), ctx=ast.Load())
+                return super().generic_visit(n)
+
+            def visit_Attribute(self_, n):
+                if me.is_marker_expr(n):
+                    return ast.Name(id='__marker__', ctx=ast.Load())
+                nm = me.name_of(n)
+                if nm is not None:
+                    v = me.get(state, nm)
+                    if v is not U and not (isinstance(v, tuple) and v[:1] in (('$FUNC',), ('$FRAG',))):
+                        env[ast.unparse(n)] = v
+                        return n
+                if me.repo is not None and me.cls is not None:
+                    v = me.repo.try_fold(n, me.cls.module, me.cls)
+                    if isinstance(v, (int, bool, str, bytes, tuple, frozenset, dict, list)):
+                        env[ast.unparse(n)] = v
+                        return n
+                return self_.generic_visit(n)
+
+            def visit_Name(self_, n):
+                v = me.get(state, n.id)
+                if v is not U and not (isinstance(v, tuple) and v[:1] in (('$FUNC',), ('$FRAG',))):
+                    env[n.id] = v
+                elif me.repo is not None and me.cls is not None and n.id not in ('True', 'False', 'None'):
+                    v = me.repo.try_fold(n, me.cls.module, me.cls)
+                    if isinstance(v, (int, bool, str, bytes, tuple, frozenset, dict, list)):
+                        env[n.id] = v
+                return n
+        e2 = T().visit(copy.deepcopy(e))
+        mk = self.get(state, '$marker')
+        if mk is not U:
+            env['__marker__'] = mk
+        nd = self.get(state, '$no_ds')
+        if nd is not U:
+            env['__no_ds_eq__'] = bool(nd)
+            env['__no_ds_ne__'] = not nd
+        try:
+            return 'ok', eval_value(e2, env)
+        except CannotEvaluate:
+            return 'unknown', None
+        except (IndexError, KeyError, ValueError, TypeError, ZeroDivisionError, OverflowError) as exc:
+            return 'raise', type(exc).__name__
+        except Exception:
+            return 'unknown', None
+
     def value(self, e, state):
         if isinstance(e, ast.Constant):
             return e.value
+        if self.is_marker_expr(e):
+            return self.get(state, '$marker')
+        if isinstance(e, ast.Attribute) and e.attr == 'data_value':
+            return FRAG
+        if isinstance(e, ast.Subscript) and isinstance(e.slice, ast.Slice) and self.value(e.value, state) == FRAG:
+            return FRAG
+        if isinstance(e, ast.Call) and isinstance(e.func, ast.Name) and e.func.id in ('bytes', 'memoryview', 'bytearray') \
+                and len(e.args) == 1 and self.value(e.args[0], state) == FRAG:
+            return FRAG
         pol = self.nods_polarity(e)
         if pol is not None:
             v = self.get(state, '$no_ds')
@@ -155,10 +256,39 @@ class BoolClient(Client):
                 return ('$FUNC', d[k])
         if isinstance(e, (ast.Tuple, ast.List, ast.Set)):
             vals = [self.value(x, state) for x in e.elts]
-            return tuple(vals) if U not in vals else U
+            if U not in vals:
+                return tuple(vals)
+        how, v = self.fold(e, state)
+        if how == 'ok' and (isinstance(v, (bool, int, str, bytes, tuple, frozenset)) or v is None):
+            return v
         return U
 
+    KEEP_METHODS = ('append', 'write', 'extend', 'insert', 'appendleft', 'writelines')
+
+    def note_keeps(self, node, state):
+        """remember which reassembly buffer this PDV's fragment went to: ``self.<buffer>.append / write`` of (part of) the PDV
+        value sets the abstract flag ``$kept:<buffer>``"""
+        for call in calls_in(node):
+            fn = call.func
+            if isinstance(fn, ast.Attribute) and fn.attr in self.KEEP_METHODS and call.args:
+                ch = attr_chain(fn.value)
+                if ch and ch[0] == 'self' and len(ch) == 2 and any(self.value(a, state) == FRAG for a in call.args):
+                    state = self.put(state, '$kept:' + ch[1], True)
+        return state
+
     def stmt(self, st, state):
+        state = self.note_keeps(st, state) if isinstance(st, (ast.Expr, ast.Assign)) else state
+        if isinstance(st, ast.Assign) and len(st.targets) == 1 and isinstance(st.targets[0], (ast.Tuple, ast.List)) \
+                and all(isinstance(t, ast.Name) for t in st.targets[0].elts):
+            v = self.value(st.value, state)
+            names = [t.id for t in st.targets[0].elts]
+            if isinstance(v, tuple) and len(v) == len(names) and v[:1] != ('$FUNC',):
+                for n_, x_ in zip(names, v):
+                    state = self.put(state, n_, x_ if isinstance(x_, (bool, int, str, bytes, tuple)) or x_ is None else U)
+                return [state]
+            for n_ in names:
+                state = self.put(state, n_, U)
+            return [state]
         if isinstance(st, ast.Expr) and isinstance(st.value, ast.Call):
             hit = self.callee_of(st.value, state)
             if hit is not None:
@@ -174,8 +304,8 @@ class BoolClient(Client):
             n = self.name_of(st.targets[0])
             if n is not None and (n in self.tracked or isinstance(st.targets[0], ast.Name)):
                 v = self.value(st.value, state)
-                if isinstance(v, bool) or (isinstance(v, tuple) and v[:1] == ('$FUNC',)):
-                    return [self.put(state, n, v)]
+                if isinstance(v, (bool, int, tuple, frozenset)) and v is not U:
+                    return [self.put(state, n, v)]     # (FRAG is a tuple)
                 if n == 'self.receiving':
                     raise AnalysisError('receiving assigned a non-constant at line %d' % st.lineno)
                 return [self.put(state, n, U)]
@@ -234,10 +364,25 @@ class BoolClient(Client):
                     return l is not r
             except TypeError:
                 return None
+        how, v = self.fold(test, state)
+        if how == 'ok':
+            try:
+                return bool(v)
+            except Exception:
+                return None
         return None
 
     def raises(self, node, state):
-        return []
+        """a look-up in a constant table with a key the state knows (``TABLE[marker]``) raises what Python raises"""
+        out = []
+        for n in ast.walk(node):
+            if isinstance(n, (ast.FunctionDef, ast.Lambda)):
+                continue
+            if isinstance(n, ast.Subscript) and isinstance(n.ctx, ast.Load) and not isinstance(n.slice, ast.Slice):
+                how, exc = self.fold(n, state)
+                if how == 'raise' and exc not in out:
+                    out.append(exc)
+        return out
 
 
 def process_loop(f) -> Tuple[ast.For, str]:
@@ -293,17 +438,13 @@ def run(repo, rep):
         raise
 
     # ---------------------------------------------------------------- D3
-    tracked = {'self.command_set_received', 'self.data_set_received', 'self.receiving', 'marker',
+    # the message control header is the abstract input ``$marker``: whatever expression reads byte 0 of the PDV value has
+    # that value, whichever local (if any) it is bound to, whatever table it indexes
+    tracked = {'self.command_set_received', 'self.data_set_received', 'self.receiving',
                'self._dataset_fp', 'self._encoded_data_set'}
-    # the marker variable
-    marker_var = None
-    for st in loop.body:
-        if isinstance(st, ast.Assign) and isinstance(st.targets[0], ast.Name) and 'indexbytes' in norm(st.value) or \
-                (isinstance(st, ast.Assign) and isinstance(st.targets[0], ast.Name) and 'data_value[0]' in norm(st.value)):
-            marker_var = st.targets[0].id
-    if marker_var is None:
-        raise AnalysisError('%s: the marker (first byte of the PDV value) is not bound to a local' % proc.loc(loop))
-    tracked = {t if t != 'marker' else marker_var for t in tracked}
+    reads_marker = any(BoolClient.is_marker_expr(n) for hf in repo.helper_closure(proc) for n in ast.walk(hf.node))
+    if not reads_marker:
+        raise AnalysisError('%s: the message control header (first byte of the PDV value) is never read' % proc.loc(loop))
     n_cases = 0
     for cmd_done in (False, True):
         for data_done in (False, True):
@@ -313,15 +454,8 @@ def run(repo, rep):
                         continue  # already complete: the decoder is discarded (D4)
                     n_cases += 1
                     pre = frozenset([('self.command_set_received', cmd_done), ('self.data_set_received', data_done),
-                                     ('self.receiving', True), (marker_var, marker), ('$no_ds', no_ds)])
-
-                    class _C(BoolClient):
-                        def stmt(self_inner, st, state):
-                            # do not let the body re-bind the marker
-                            if isinstance(st, ast.Assign) and isinstance(st.targets[0], ast.Name) and st.targets[0].id == marker_var:
-                                return [state]
-                            return BoolClient.stmt(self_inner, st, state)
-                    cl = _C(tracked, repo, dec)
+                                     ('self.receiving', True), ('$marker', marker), ('$no_ds', no_ds)])
+                    cl = BoolClient(tracked, repo, dec)
                     o = Flow(cl).run(loop.body, [pre])
                     outs = list(o.fall) + list(o.brk) + list(o.cont) + [s for s, _ in o.ret]
                     # spec
@@ -333,6 +467,8 @@ def run(repo, rep):
                     probs = []
                     if not outs and not o.exc:
                         probs.append('no outcome')
+                    if not outs and o.exc:
+                        probs.append('a PDV with message control header %d raises %s' % (marker, sorted({e_ for _s, e_ in o.exc})))
                     for s in outs:
                         got = BoolClient.get(s, 'self.receiving')
                         if got is U:
@@ -350,50 +486,40 @@ def run(repo, rep):
     rep.notes['completion_cases'] = n_cases
 
     # ---------------------------------------------------------------- D1
+    # which reassembly buffer a fragment goes to, per value of the control header: evaluated, not read off the tests
     p1 = []
-    tests = []
-    # the marker may be handed to helper methods (as a parameter of any name) and may select a handler from a
-    # class-level table: every comparison of it, wherever it was moved, and the keys of such a table count
-    marker_nodes = [(n, marker_var) for n in ast.walk(loop)]
-    for hf in repo.helper_closure(proc)[1:]:
-        for pn in hf.params[1:]:
-            if pn == marker_var or 'marker' in pn or 'flag' in pn or 'header' in pn:
-                marker_nodes += [(n, pn) for n in ast.walk(hf.node)]
-    for n, mv in marker_nodes:
-        if isinstance(n, ast.Compare) and isinstance(n.left, ast.Name) and n.left.id == mv and len(n.ops) == 1:
-            v = repo.try_fold(n.comparators[0], fsm, dec)
-            if v is None and attr_chain(n.comparators[0]) and attr_chain(n.comparators[0])[0] == 'self':
-                d_ = BoolClient(set(), repo, dec).class_dict(attr_chain(n.comparators[0])[-1])
-                if d_ is not None:
-                    # a dispatch table: its keys grouped by handler are the sets the marker is tested against
-                    groups = {}
-                    for k_, h_ in d_.items():
-                        groups.setdefault(h_, []).append(k_)
-                    for ks in groups.values():
-                        tests.append(('In', tuple(ks)))
-                    continue
-            tests.append((type(n.ops[0]).__name__, v))
-    sets = [frozenset(v) if isinstance(v, (tuple, list, frozenset)) else frozenset([v]) for op, v in tests if op in ('In', 'Eq')]
-    for want in (frozenset(CMD_FLAGS), frozenset([CMD_FLAGS[1]]), frozenset(DATA_FLAGS), frozenset([DATA_FLAGS[1]])):
-        if want not in sets:
-            p1.append('no test of the marker against %s' % sorted(want))
-    for sset in sets:
-        if sset not in (frozenset(CMD_FLAGS), frozenset([CMD_FLAGS[1]]), frozenset(DATA_FLAGS), frozenset([DATA_FLAGS[1]]),
-                        frozenset([CMD_FLAGS[0]]), frozenset([DATA_FLAGS[0]])):
-            p1.append('marker tested against %s, which is not a flag set of PS3.8 E.2' % sorted(sset, key=str))
-    # a marker outside 0..3 must raise: evaluate marker=4
-    cl = BoolClient({marker_var})
-
-    class _C2(BoolClient):
-        def stmt(self_inner, st, state):
-            if isinstance(st, ast.Assign) and isinstance(st.targets[0], ast.Name) and st.targets[0].id == marker_var:
-                return [state]
-            return [state]
-    o = Flow(_C2({marker_var}, repo, dec)).run(loop.body, [frozenset([(marker_var, 4)])])
-    if o.fall or o.cont or o.brk or not o.exc:
-        p1.append('a message control header outside {0,1,2,3} does not raise')
+    cmd_buf = None
+    for hf in repo.helper_closure(proc):
+        for n in ast.walk(hf.node):
+            if isinstance(n, ast.Call) and norm(n.func) == 'dsutils.decode' and n.args:
+                for x in ast.walk(n.args[0]):
+                    ch = attr_chain(x) if isinstance(x, ast.Attribute) else None
+                    if ch and len(ch) == 2 and ch[0] == 'self':
+                        cmd_buf = ch[1]
+    if cmd_buf is None:
+        raise AnalysisError('%s: the buffer the command set is decoded from was not found' % proc.loc())
+    for marker in (0, 1, 2, 3):
+        pre = frozenset([('self.command_set_received', False), ('self.data_set_received', False), ('self.receiving', True),
+                         ('$marker', marker), ('$no_ds', False)])
+        o = Flow(BoolClient(tracked, repo, dec)).run(loop.body, [pre])
+        outs = list(o.fall) + list(o.brk) + list(o.cont) + [s_ for s_, _ in o.ret]
+        if not outs:
+            p1.append('a PDV with message control header %d is not accepted' % marker)
+        for s_ in outs:
+            kept = sorted(n_[6:] for n_, v_ in s_ if n_.startswith('$kept:') and v_ is True)
+            if marker in CMD_FLAGS and kept != [cmd_buf]:
+                p1.append('a command fragment (header %d) is kept in %s, not in the command buffer %s' % (marker, kept or 'nothing', cmd_buf))
+            if marker in DATA_FLAGS and (not kept or cmd_buf in kept):
+                p1.append('a data set fragment (header %d) is kept in %s' % (marker, kept or 'nothing'))
+    # a header outside 0..3 must raise
+    for marker in (4, 5, 7, 8, 16, 128, 255):
+        pre = frozenset([('self.command_set_received', False), ('self.data_set_received', False), ('self.receiving', True),
+                         ('$marker', marker), ('$no_ds', False)])
+        o = Flow(BoolClient(tracked, repo, dec)).run(loop.body, [pre])
+        if o.fall or o.cont or o.brk or o.ret or not o.exc:
+            p1.append('a message control header outside {0,1,2,3} (%d) does not raise' % marker)
     rep.check(not p1, 'C07.D1', 'fsm:DIMSEDecoder.process:marker-sets', proc.loc(loop),
-              'marker tested against (1,3) / 3 / (0,2) / 2, anything else raises', '; '.join(sorted(set(p1))))
+              'headers 1,3 -> command buffer, 0,2 -> data buffers, anything else raises', '; '.join(sorted(set(p1))))
 
     # ---------------------------------------------------------------- D2
     p2 = []
@@ -446,7 +572,9 @@ def run(repo, rep):
             if callee.endswith('.process'):
                 return 'process'
             return None
-        c = SymClient(repo, f, event_of=ev, hierarchy=hier, store_event=lambda t: t == 'self.dimse_decoder')
+        # an action may delegate to another action (``return self.dt_2()``): follow calls of the machine's own methods
+        c = SymClient(repo, f, event_of=ev, hierarchy=hier, store_event=lambda t: t == 'self.dimse_decoder',
+                      inline=lambda fi: repo.is_helper(fi) or (fi.cls is not None and fi.cls.key == model.sm.key and fi.name != meth))
         fin = c.final_states(c.run(empty_state()))
         p4 = []
         n_put = 0
